@@ -2,7 +2,7 @@
    G qdd = gamma, tau = 0 on every unactuated coordinate, H qdd + C = tau + G^T lambda row by row, and the exact
    operator reproduces the desired acceleration on every actuated coordinate. *)
 From Coq Require Import List.
-From RV Require Import Scalar Laws ListArr LinDef LinThm ModelDef DynDef ConsDef IdcThm C14Thm DimThm.
+From RV Require Import Scalar Laws LinAlg3 Spatial ListArr LinDef LinThm ModelDef JointDef KinDef DynDef ConsDef IdcThm C14Thm DimThm KinThm C04Thm FdcThm.
 Import ListNotations.
 Section P.
   Context {T : Type} (O : Ops T) {FL : FieldLaws O}.
@@ -29,5 +29,28 @@ Section P.
     (relaxed = false -> forall i, i < n -> nth i act false = true -> vget (o0 O) qdd i = vget (o0 O) qdes i).
   Proof. intros W. exact (idc_equations_sized O oeqb_spec M w q qd qdes cs act relaxed fext w' Sy qdd tau lam (wf_qdot M W)). Qed.
 End P.
+Section P2.
+  Context {T : Type} (O : Ops T) {FL : FieldLaws O} {TL : TrigLaws O}.
+  Hypothesis oeqb_spec : forall x y : T, oeqb O x y = true <-> x = y.
+  (* the motion equation in terms of inverse dynamics: the returned acceleration put into InverseDynamics (from any
+     well-formed workspace) gives the returned tau plus G^T lambda, component by component (either operator) *)
+  Theorem C11_inverse_dynamics_of_the_returned_acceleration_is_tau_plus_constraint_forces
+    (M : @Model T) q qd (w0 w1 : @WS T) (qdes : list T) cs act relaxed w' Sy qdd tau lam : WF M ->
+    (forall i j, 0 < i < nbodies M -> 0 < j < nbodies M -> i <> j ->
+       is_custom (jkind (getJ M i)) = true -> is_custom (jkind (getJ M j)) = true -> jcust (getJ M i) <> jcust (getJ M j)) ->
+    (forall i u, 0 < i < nbodies M -> bvirtual (getbody O M i) = true -> rbi_mulv O (getI O M i) u = svzero O) ->
+    jq (getJ M 0) + jdof (getJ M 0) = 0 ->
+    (forall i, 0 < i < nbodies M -> joint_wf O M q i) -> o2 O <> o0 O -> order_ok M = true ->
+    Good O M w0 -> Good O M w1 -> length act = dof_count M -> length qdes = dof_count M ->
+    inverse_dynamics_constraints O M w0 q qd qdes cs act relaxed None = (w', Sy, Some (qdd, tau, lam)) ->
+    forall r, r < dof_count M ->
+      nth r (snd (inverse_dynamics O M w1 q qd qdd (vzeros (o0 O) (dof_count M)) None)) (o0 O) =
+      oadd O (vget (o0 O) tau r) (odot O (nth r (mTn O (cG Sy) (dof_count M)) []) lam).
+  Proof.
+    intros W C V R J N2 Ord G0 G1 La Lq E.
+    exact (idc_equations_of_motion O oeqb_spec M q qd W C V R J N2 Ord w0 w1 qdes cs act relaxed w' Sy qdd tau lam G0 G1 La Lq E).
+  Qed.
+End P2.
 Print Assumptions C11_constrained_inverse_dynamics_equations.
 Print Assumptions C11_constrained_inverse_dynamics_equations_constructed_models.
+Print Assumptions C11_inverse_dynamics_of_the_returned_acceleration_is_tau_plus_constraint_forces.
